@@ -1082,6 +1082,13 @@ def _str(L, x=''):
         return x.as_str(L.I)
     if isinstance(x, Opaque) and x.name == 'tzinfo':
         return x.tzname
+    if isinstance(x, Obj):
+        cls = x.cls
+        f = cls.lookup('__str__') if isinstance(cls, ClassV) else None
+        if f is not None:
+            return L.I.call_function(f, [x], {})
+        # default object.__str__ / an abstract record: some string, contents not specified
+        return Opaque('str', is_str=True, of=x)
     raise Unsupported('str(%r)' % type(x))
 
 
